@@ -14,6 +14,7 @@ import vlib
 from vlib import fmt_list
 import tmplgen as g
 import c02
+import tparse
 
 PROP = "C01"
 
@@ -73,7 +74,7 @@ def lines_of(cases, mode=0):
 def check(tier):
     rep = vlib.Report(PROP, tier, "proof")
     rng = random.Random(rep.seed)
-    st = vlib.proof_stage(rep, "Properties_C01.v", ["finder"], tables=(("Tables_tmpl", "gentables_tmpl.cpp"),))
+    st = vlib.proof_stage(rep, "Properties_C01.v", ["finder", "tparse"], tables=tuple(tparse.TABLES))
     exe, msg = c02.build("sse2")
     if exe is None:
         rep.violation({"broken": "cpp/drv_tmpl.cpp does not build against the current tree", "log": msg}, no_input=True)
@@ -116,6 +117,14 @@ def check(tier):
         small = "".join(vlib.shrink_list(list(t), still, max_steps=200))
         rep.violation({"component": "Finder::Next", "width": w, "text": small, "observed_impl_matches": i, "model": m,
                        "oracle": "match list differs from the structural specification (first tag word at or after the cursor)"})
+
+    # ---- (a2) the parser model: tag trees of the real parser vs TparseModel on arbitrary texts
+    pr = tparse.correspond(rng, tier, boost)
+    for e in pr["errors"][:2]:
+        # the model predicts an out-of-contract access for this text: a C01 finding in the real parser
+        rep.violation({"component": "Template.hpp::parse (model outcome Error)", "width": e.get("width"), "text": e.get("text"), "text_units": e.get("text_units"),
+                       "model": e.get("model", "")[:500], "impl_tree": e.get("impl", "")[:500],
+                       "oracle": "the parser model must not reach an Error outcome (c01_parse_safe no longer describes the code)"})
 
     # ---- (b) safety search over the whole parser + renderer
     n = (6000 if tier == "quick" else 150000) * boost
@@ -172,8 +181,10 @@ def check(tier):
                 (w, t, v), r = bad[0]
                 rep.violation({"component": "Template::Render", "build": name, "width": w, "template": t[:2000], "template_units": fmt_list([ord(c) for c in t]),
                                "value_json": json.dumps(v), "sanitizer": r, "oracle": "rendering must return normally without a sanitizer report"})
-    if not rep.violations and (f_mis or not st["ok"]):
+    if not rep.violations and (f_mis or not st["ok"] or pr["mismatches"]):
         what = []
+        if pr["mismatches"]:
+            what.append("correspondence TparseModel.parse_model vs TemplateCore::Parse differs (tag trees): " + json.dumps(pr["mismatches"][0])[:1200])
         if not st["ok"]:
             what.append("coq/Properties_C01.vo no longer builds (Finder theorems not re-established)")
         if f_mis:
@@ -187,16 +198,19 @@ def check(tier):
         "discharged": len(theorems) if st["ok"] else 0,
         "checker_cmd": "cd coq && make Properties_C01.vo (coqc 8.16.1) ; coqc -Q . Qv Properties_C01.v for Print Assumptions",
         "trusted_base": vlib.TRUSTED_BASE_COMMON + [
-            "modelled and proved: Finder::Next only (FinderModel.v); tied by the differential run on %d texts" % len(ftexts),
-            "NOT modelled: Template.hpp parse()/render() on malformed input -- covered by the sanitizer search only (a test, not a proof): g++ ASan+UBSan, exact-size input buffers, exact-fit growth hook QENTEM_VERIF"],
+            "modelled and proved: Finder::Next (FinderModel.v, %d texts compared) and the whole of Template.hpp::parse incl. the attribute scanners and the reads of the expression parser (TparseModel.v; tag trees compared field by field on %d texts)" % (len(ftexts), pr.get("n", 0)),
+            "NOT modelled: the renderer on the trees of malformed texts (only the tree invariant for texts without svar/inline-if tokens is proved) -- covered by the sanitizer search (a test, not a proof): g++ ASan+UBSan, exact-size input buffers, exact-fit growth hook QENTEM_VERIF; array capacity / reallocation"],
         "theorems": [{"name": a, "assumptions": b} for a, b in theorems],
-        "evaluations": len(allcases) + len(ftexts) + extra_runs,
+        "evaluations": len(allcases) + len(ftexts) + extra_runs + pr.get("n", 0),
         "distinct_nontrivial": distinct,
         "rule": "templates from the documented grammar, 1-3 mutations of them (truncation, deletion, token insertion, slice move, duplication, unit replacement), token soup, boundary shapes (255/256-unit names, 65535-unit inline-if values, nesting 200-300, every prefix of every tag head), x generated value trees, 4 widths; non-trivial = contains a tag opener; distinct by (width, text)",
         "samples": [allcases[0][1][:120], cases[0][1][:300], cases[len(cases) // 2][1][:300]],
         "input_distribution": dict(dist, boundary=len(bcases), finder_texts=len(ftexts)),
         "builds": builds,
         "sanitizer_reports": {k: len(v) for k, v in groups.items()},
+        "parser_model_texts": pr.get("n", 0), "parser_model_nonempty_trees": pr.get("distinct_nonempty_trees", 0),
+        "parser_model_mismatches": pr.get("n_mismatch", len(pr["mismatches"])), "parser_model_errors": pr.get("n_error", len(pr["errors"])),
+        "parser_model_distribution": pr.get("distribution", {}),
         "finder_spec_failures": len(f_fail),
         "finder_model_mismatches": len(f_mis),
     }
